@@ -434,4 +434,41 @@ pub(crate) mod b {
         }
         println!("BOUNDED-CASES {}", n);
     }
+
+    /// C11 (complement of the known finding about `Text::bounds`): for every geometric fragment the
+    /// bounding box scales with the fragment: bounds(scale(f, s)) = scale(bounds(f), s)
+    #[test]
+    fn bounded_bounds_commute_with_scale() {
+        let vals = [0.0f32, 0.25, 1.5, 8.0, 130.5];
+        let mut n = 0u64;
+        for &x0 in &vals {
+            for &y0 in &vals {
+                for &x1 in &vals {
+                    for scale in [0.5f32, 1.0, 3.0, 8.0, 10.0, 20.0, 37.5] {
+                        let y1 = x0 + 3.0;
+                        let frags = [
+                            Fragment::Line(Line::new(Point::new(x0, y0), Point::new(x1, y1), false)),
+                            Fragment::MarkerLine(MarkerLine::new(Point::new(x0, y0), Point::new(x1, y1), false, None, Some(Marker::Arrow))),
+                            Fragment::Circle(Circle::new(Point::new(x0, y0), x1 + 0.5, false)),
+                            Fragment::Arc(Arc::new(Point::new(x0, y0), Point::new(x1, y1), 2.0)),
+                            Fragment::Rect(Rect::new(Point::new(x0, y0), Point::new(x1, y1), false, false)),
+                            Fragment::Polygon(Polygon::new(vec![Point::new(x0, y0), Point::new(x1, y1), Point::new(y1, x0)], true, vec![PolygonTag::ArrowLeft])),
+                        ];
+                        for f in frags {
+                            let (lo, hi) = f.bounds();
+                            let (slo, shi) = f.scale(scale).bounds();
+                            let close = |a: f32, b: f32| (a - b).abs() <= 1e-4 * (1.0 + a.abs());
+                            if !(close(slo.x, lo.x * scale) && close(slo.y, lo.y * scale) && close(shi.x, hi.x * scale) && close(shi.y, hi.y * scale)) {
+                                println!("BOUNDED-WITNESS bounds of {:?} at scale {}: ({},{})..({},{}) vs scaled bounds ({},{})..({},{})", f, scale,
+                                    slo.x, slo.y, shi.x, shi.y, lo.x * scale, lo.y * scale, hi.x * scale, hi.y * scale);
+                                panic!("bounds commute with scale");
+                            }
+                            n += 1;
+                        }
+                    }
+                }
+            }
+        }
+        println!("BOUNDED-CASES {}", n);
+    }
 }
